@@ -204,8 +204,15 @@ mod ir_builder {
                     }
                 }
 
+            // The header of a block, `label(args):`.  Operation keywords are not delimited, so
+            // without this check a label like `not_block0():`, `br_x():` or `load_y_block1():`
+            // (as produced by inlining functions named `not`, `br_x`, `load_y`) is taken for an
+            // instruction (`not _block0`, `br _x()`, `load _y_block1`) of the preceding block.
+            rule block_header()
+                = id() "(" _ (block_arg() ** comma()) ")" _ ":"
+
             rule instr_decl() -> IrAstInstruction
-                = value_name:value_assign()? op:operation() metadata:comma_metadata_idx()? {
+                = !block_header() value_name:value_assign()? op:operation() metadata:comma_metadata_idx()? {
                     IrAstInstruction {
                         value_name,
                         op,
